@@ -59,13 +59,14 @@ Node *Parser::parseComposite(const Token &token, const Token &identifier) {
     PSC::Block *block = new PSC::Block();
     blocks.emplace_back(block);
 
+    while (currentToken->type == TokenType::LINE_END) advance();
     while (currentToken->type == TokenType::DECLARE) {
         Node *declareNode = parseDeclareExpression();
         block->addNode(declareNode);
 
         if (currentToken->type != TokenType::LINE_END)
             throw PSC::ExpectedTokenError(*currentToken, "newline");
-        advance();
+        while (currentToken->type == TokenType::LINE_END) advance();
     }
 
     if (currentToken->type != TokenType::ENDTYPE)
